@@ -6,6 +6,8 @@ use crate::{
 };
 use roxmltree::{Document, Node};
 
+const E57_NAMESPACE: &str = "http://www.astm.org/COMMIT/E57/2010-e57-v1.0";
+
 /// Descriptor with metadata for a single point cloud.
 ///
 /// This struct does not contain any actual point data,
@@ -145,9 +147,18 @@ impl PointCloud {
             if !n.is_element() {
                 continue;
             }
-            let ns = n.lookup_prefix(n.tag_name().namespace().unwrap_or_default());
+            let uri = n.tag_name().namespace().unwrap_or_default();
+            let ns = n.lookup_prefix(uri);
             let tag = n.tag_name().name();
-            let name = RecordName::from_namespace_and_tag_name(ns, tag)?;
+            let name = if uri.is_empty() || uri == E57_NAMESPACE {
+                RecordName::from_namespace_and_tag_name(ns, tag)?
+            } else {
+                // Elements of other namespaces are never standard attributes, whatever their name
+                RecordName::Unknown {
+                    namespace: ns.unwrap_or_default().to_owned(),
+                    name: tag.to_owned(),
+                }
+            };
             let data_type = RecordDataType::from_node(&n)?;
             prototype.push(Record { name, data_type });
         }
